@@ -799,8 +799,8 @@ func main() {
 		phase[name] = time.Since(mark).Seconds()
 		phaseMu.Unlock()
 	}
-	// 1. design check of the stage machine  2. the universe, compiled as TLC prints it.
-	// The three TLC runs are independent; they run side by side and feed one worker pool.
+	// 1. design check of the stage machine  2. the universe, compiled as TLC prints it: the
+	// exhaustive and the simulated enumeration run side by side and feed one worker pool.
 	p := newPool(c, env.Workers, 10*time.Second)
 	seen := &seqSet{m: map[string]bool{}}
 	cfg := "universe2.cfg"
@@ -809,9 +809,8 @@ func main() {
 	}
 	var nExh, nSim int
 	var tlcWG sync.WaitGroup
-	tlcWG.Add(3)
-	go func() {
-		defer tlcWG.Done()
+	tlcWG.Add(2)
+	func() {
 		res := env.MustTLC(common.TLCRun{Dir: "C11", Module: "Pipeline", Config: "Pipeline.cfg", Workers: 1, Timeout: 5 * time.Minute})
 		rep.AddTLC(res)
 		if len(res.Violations) > 0 || !res.Finished {
